@@ -21,6 +21,8 @@ import (
 	"sync/atomic"
 	"time"
 
+	"github.com/facebookincubator/dns/dnsrocks/dnsdata/rdb"
+
 	"verifharness/dnsfix"
 	"verifharness/vlib"
 )
@@ -58,7 +60,16 @@ func main() {
 	// RocksDB: opens, not transitions, are what the time budget of a tier buys.)
 	backupDepth := r.Pick(1, 2)
 	gen2Total := r.Pick(1, 2)
-	createBatchEvery := r.Pick(16381, 262139) // primes; ordinal = state index * menu size + op index
+	// rdb.DefaultBatchSize is scaled down in this binary (OVERLAY): CreateBatch is then as cheap as the zero
+	// Batch and is used on every other batch transition
+	scale := rdb.DefaultBatchSize
+	if scale > 8 {
+		vlib.Infra("C15: rdb.DefaultBatchSize = %d: the binary was built without harness/c15/OVERLAY", scale)
+	}
+	// native fault injection (fault.go): in every state with <= faultPerKey values per key, every operation of
+	// <= faultLines lines (thorough: of any length where the state has <= 1 value per key)
+	faultPerKey := r.Pick(1, 2)
+	faultLines := 2
 	baseOps := singles()
 	for n := 0; n <= baseBatch; n++ {
 		baseOps = append(baseOps, batches(n)...)
@@ -80,7 +91,7 @@ func main() {
 	visited := map[state]int{{}: 0}
 	frontier := []state{{}}
 	var perDepth []int
-	var skippedStates, smallStates int64
+	var skippedStates, smallStates, faultStates int64
 	depth := 0
 	for ; len(frontier) > 0; depth++ {
 		t0 := time.Now()
@@ -121,6 +132,10 @@ func main() {
 			if !r.Thorough() && total == 1 {
 				krLines = 1
 			}
+			fstate := len(s[0]) <= faultPerKey && len(s[1]) <= faultPerKey
+			if fstate {
+				atomic.AddInt64(&faultStates, 1)
+			}
 			sampleJ := (i * 7919) % len(ops)
 			for j, o := range ops {
 				if ct.isAborted() {
@@ -128,8 +143,9 @@ func main() {
 					atomic.AddInt64(&skippedStates, 1)
 					return
 				}
-				useCB := o.kind == opBatch && (i*len(ops)+j)%createBatchEvery == 0 && os.Getenv("C15_NOCB") == ""
-				got, legal := w.step(s, o, useCB, fullSeen, tiny && len(o.e) <= krLines)
+				useCB := o.kind == opBatch && (i+j)%2 == 0 && os.Getenv("C15_NOCB") == ""
+				faults := fstate && (len(o.e) <= faultLines || (r.Thorough() && len(s[0]) <= 1 && len(s[1]) <= 1)) && os.Getenv("C15_NOFAULTS") == ""
+				got, legal := w.step(s, o, useCB, fullSeen, tiny && len(o.e) <= krLines, faults)
 				if j == sampleJ {
 					results[i].sample = fmt.Sprintf("depth %d: %s --%s--> %s (matches the model: %v)", d, s.content(), o, got, legal)
 				}
@@ -179,6 +195,12 @@ func main() {
 	}
 	maxDepth := depth - 1
 
+	// batches over many keys / of many lines, around the scaled size constant (wide.go)
+	wideViolations, wideMaxKeys := 0, 0
+	if !ct.isAborted() && os.Getenv("C15_NOWIDE") == "" {
+		wideViolations, wideMaxKeys = widePart(r, pool, scale)
+	}
+
 	// every worker's directory must hold exactly what its store last showed
 	for _, w := range workers {
 		w.shutdown()
@@ -206,7 +228,7 @@ func main() {
 	r.Set("frontier_emptied", len(frontier) == 0)
 	r.Set("all_bounded_states_reached", len(visited) == full)
 	r.Set("transitions", ct.transitions)
-	r.Set("traces_validated_against_impl", ct.transitions+ct.backupCases+ct.backupGen2Cases)
+	r.Set("traces_validated_against_impl", ct.transitions+ct.backupCases+ct.backupGen2Cases+ct.faultRuns+ct.wideCases+ct.wideFaultRuns+ct.wideBackupCases)
 	r.Set("evaluations", ct.evaluations)
 	r.Set("distinct_nontrivial", ct.nontrivial)
 	r.Set("transitions_expected_to_fail", ct.expectedFail)
@@ -236,16 +258,37 @@ func main() {
 	r.Set("states_skipped_install_failed", skippedStates)
 	r.Set("failing_cases_total", totalFail)
 	r.Set("failing_cases_minimal", minimal)
-	r.Set("rule", fmt.Sprintf("level-synchronous BFS from the empty store to the fixed point; state = content of keys {k1,k2} as read from the REAL store, canonical within <=%d values per key over 5 values (156^2 states). In every state: 10 Add, 10 Del and every sequence of 0..%d add/del lines as one batch; in every state holding <=%d values in all additionally every sequence of %d lines (order and duplicates included). Each operation is executed on a real rdb.RDB that was brought into the state with the store's own Add/Del and read back; afterwards the error/no-error outcome and ForEach on every key (Find/FindFirst agreement once per distinct successor content of a state) are compared with the model (Add: appended; Del: exactly one equal value gone, rest in order, fails without effect if absent; batch: all additions then all deletions, named keys compared as multisets, other keys exactly, fails iff a deletion has no target and then changes nothing). In the smallest states (thorough: <=1 value per key, 36 states, operations of <=2 lines; quick: <=1 value in all, 11 states, operations of <=1 line, <=2 lines in the empty store), after every successful operation that leaves a key it names without values the store is closed and dumped raw: the key must be gone. Successors with >%d values under a key are checked but not expanded. At every state of depth <=%d with <=%d values per key the store is closed, backed up with rdb.Backup and restored with rdb.Restore into another directory, which must hold the same map (ordered raw dump); where the store holds <=%d values in all, additionally: raw dump of the source, a real RDB opened on the restored copy, then one more Add, a second backup into the same backup directory, restored into a fresh and over the existing directory (the latest backup must win). nontrivial = transitions whose expected outcome is a changed map", maxPerKey, baseBatch, smallTotal, maxBatch, maxPerKey, backupDepth, smallPerKey, gen2Total))
+	r.Set("DefaultBatchSize_scaled_to", scale)
+	r.Set("native_calls_recorded", ct.nativeCalls)
+	r.Set("max_native_write_calls_of_a_successful_batch", ct.maxWriteCallsOkBatch)
+	r.Set("max_nonempty_native_writes_of_an_operation", ct.maxNonEmptyWrites)
+	r.Set("operations_with_more_than_one_nonempty_native_write", ct.multiWriteOps)
+	r.Set("fault_states", faultStates)
+	r.Set("fault_max_values_per_key", faultPerKey)
+	r.Set("fault_operations", ct.faultOps)
+	r.Set("fault_runs", ct.faultRuns)
+	r.Set("fault_runs_by_failing_native_call", map[string]int64{"Get": ct.faultGet, "GetMulti": ct.faultGetMulti, "Put": ct.faultPut, "Delete": ct.faultDelete, "ExecuteBatch": ct.faultExecuteBatch})
+	r.Set("fault_runs_reporting_success_with_full_effect", ct.faultSwallowedLegal)
+	r.Set("fault_samples", fs.sampleList())
+	r.Set("wide_max_distinct_keys", wideMaxKeys)
+	r.Set("wide_cases", ct.wideCases)
+	r.Set("wide_cases_changing_map", ct.wideNontrivial)
+	r.Set("wide_fault_runs", ct.wideFaultRuns)
+	r.Set("wide_backup_restore_cases", ct.wideBackupCases)
+	r.Set("wide_failing_groups", wideViolations)
+	r.Set("rule", fmt.Sprintf("level-synchronous BFS from the empty store to the fixed point; state = content of keys {k1,k2} as read from the REAL store, canonical within <=%d values per key over 5 values (156^2 states). In every state: 10 Add, 10 Del and every sequence of 0..%d add/del lines as one batch; in every state holding <=%d values in all additionally every sequence of %d lines (order and duplicates included). Each operation is executed on a real rdb.RDB that was brought into the state with the store's own Add/Del and read back; afterwards the error/no-error outcome and ForEach on every key (Find/FindFirst agreement once per distinct successor content of a state) are compared with the model (Add: appended; Del: exactly one equal value gone, rest in order, fails without effect if absent; batch: all additions then all deletions, named keys compared as multisets, other keys exactly, fails iff a deletion has no target and then changes nothing). In the smallest states (thorough: <=1 value per key, 36 states, operations of <=2 lines; quick: <=1 value in all, 11 states, operations of <=1 line, <=2 lines in the empty store), after every successful operation that leaves a key it names without values the store is closed and dumped raw: the key must be gone. Successors with >%d values under a key are checked but not expanded. At every state of depth <=%d with <=%d values per key the store is closed, backed up with rdb.Backup and restored with rdb.Restore into another directory, which must hold the same map (ordered raw dump); where the store holds <=%d values in all, additionally: raw dump of the source, a real RDB opened on the restored copy, then one more Add, a second backup into the same backup directory, restored into a fresh and over the existing directory (the latest backup must win). NATIVE LAYER (every transition): a recording layer between rdb.RDB and its RocksDB handle (field RDB.db) records every native call of the operation; one atomic step = before every non-empty native write after the first one of an operation the whole store is dumped, and that intermediate map must be the map before or the map after the operation. FAULTS: in every state with <=%d values per key, for every operation of <=%d lines (thorough: of any length in states with <=1 value per key), every native call the operation makes (Get, GetMulti - once per slot of its error slice -, Put, Delete, ExecuteBatch) is made to fail in turn, a failing write not reaching RocksDB: the operation must report an error and leave the map as it was, or report success and have its full specified effect. WIDE PART, around the size constant rdb.DefaultBatchSize which is scaled from 100000 to %d in this binary: every number n=1..%d (3x+1) of distinct keys x store contents {empty; every key one value; odd keys two values; plus a bystander key} x batch families {n additions; n deletions; additions and deletions on alternating keys; add and delete the same value under every key; replace under every key; n additions plus one deletion without target at each position p=1..n} and, for one key, every number 1..%d of lines (all additions; add/delete alternating), each built with RDB.CreateBatch (capacity = the constant) and on the zero Batch, lines in descending key order: result against the model by a complete raw dump of the open store, atomicity as above, then every native call failing in turn as above; the store holding every key one value is also closed, backed up and restored for every n. nontrivial = transitions whose expected outcome is a changed map", maxPerKey, baseBatch, smallTotal, maxBatch, maxPerKey, backupDepth, smallPerKey, gen2Total, faultPerKey, faultLines, scale, wideMaxKeys, wideMaxKeys))
 	r.Assume = []string{
 		"RocksDB itself (memtable, flush, compaction, backup engine) is executed, not modelled",
 		"the store's future behaviour depends only on the bytes under each key, which ForEach observes completely (a malformed tail is a ForEach error); equal observations are therefore merged although reached through different physical histories",
-		"batches are built on the zero rdb.Batch except on a deterministic subset (transitions whose ordinal within the level is a multiple of " + fmt.Sprint(createBatchEvery) + ") that uses RDB.CreateBatch, whose only difference is a 2x100000-entry pre-allocation",
+		"rdb.DefaultBatchSize is scaled from 100000 to " + fmt.Sprint(scale) + " in the instrumented copy this binary is built from (harness/c15/OVERLAY, setconst). In the repository the constant only sizes the two slices RDB.CreateBatch pre-allocates and is the compiler's default batch size (not used here); the property does not mention it - a batch of ANY size is one atomic step - so scaling it moves 'fewer / exactly as many / more lines and distinct keys than the constant' from 100000 into the bound without changing what is demanded. A size threshold that is NOT derived from this constant (a literal number) stays outside the bound",
+		"batches are built with RDB.CreateBatch on every other batch transition (state index + operation index even) and on the zero rdb.Batch on the rest; the wide part uses both for every case",
+		"a failing native write does not reach RocksDB (one native Put / Delete / write batch is applied completely or not at all: RocksDB's contract, not re-verified here); a failing native read returns an error instead of data. Failures inside rdb.Backup / rdb.Restore (which do not go through RDB.db) are not injected: the statement says nothing about a failing backup",
+		"the rdb package is built with its sync / channel operations bound to the scheduler shims (the instrumenter scales constants only in packages it instruments); no exploration is active in this binary, so every shim delegates to the real primitive",
 		"keys outside {k1,k2} are only looked for by raw dumps (at backup points and when each worker's store is finally closed)",
 		"single writer at a time per store; concurrency of Add/Del/ExecuteBatch (writeMutex) is not explored here",
 		"values longer than 2 bytes, more than 3 values per key, batches longer than the bound, and random long histories are outside the bound",
 	}
-	for _, knob := range []string{"C15_NOBACKUP", "C15_NOCB", "C15_MAXDEPTH"} { // development knobs: never a full run
+	for _, knob := range []string{"C15_NOBACKUP", "C15_NOCB", "C15_MAXDEPTH", "C15_NOFAULTS", "C15_NOWIDE"} { // development knobs: never a full run
 		if os.Getenv(knob) != "" {
 			r.Exhaustive = false
 			r.Note("development knob %s is set: this run does not cover the declared bound", knob)
